@@ -5,7 +5,7 @@ use quiver_core::effects::Effect;
 use quiver_core::executor::Executor;
 use quiver_core::process::{Action, Frame, ProcessId, ProcessInfo, ProcessStatus};
 use quiver_core::value::Value;
-use std::collections::{HashMap, HashSet};
+use std::collections::{HashMap, HashSet, VecDeque};
 
 const MAX_STEP_UNITS: usize = 1000;
 
@@ -35,6 +35,10 @@ pub struct Worker<E: Effect, R: CommandReceiver<E>, S: EventSender<E>> {
     // process_id -> pending result requests; each request's keep-set drives orphaned-local release
     // once the process completes (see `Command::GetResult`).
     pending_result_requests: HashMap<ProcessId, Vec<PendingResultRequest>>,
+    // Commands for a persistent process that arrived while it was still running a line: the
+    // next line's compaction, resumption and result request, in arrival order. They take effect
+    // once the process sleeps (see `run_deferred_session_commands`).
+    deferred_session_commands: HashMap<ProcessId, VecDeque<Command<E>>>,
     // Standing subscriptions, keyed by the environment-allocated subscription id. Pushed by
     // `flush_subscriptions` at tick boundaries.
     subscriptions: HashMap<u64, WorkerSubscription>,
@@ -107,6 +111,7 @@ impl<E: Effect, R: CommandReceiver<E>, S: EventSender<E>> Worker<E, R, S> {
             awaited: HashSet::new(),
             awaiters_for_target: HashMap::new(),
             pending_result_requests: HashMap::new(),
+            deferred_session_commands: HashMap::new(),
             subscriptions: HashMap::new(),
             worker_id: worker_id as crate::WorkerId,
             receiver,
@@ -136,6 +141,9 @@ impl<E: Effect, R: CommandReceiver<E>, S: EventSender<E>> Worker<E, R, S> {
 
         // Check for newly completed processes
         self.check_completed_processes()?;
+
+        // A line entered while the previous one was running starts now that the process sleeps
+        self.run_deferred_session_commands()?;
 
         Ok(did_work)
     }
@@ -204,7 +212,78 @@ impl<E: Effect, R: CommandReceiver<E>, S: EventSender<E>> Worker<E, R, S> {
         }
     }
 
+    /// The persistent process a line-by-line client's command is about, if it is one of the three
+    /// commands that make up "enter the next line": compact, resume, ask for the result.
+    fn session_command_target(command: &Command<E>) -> Option<ProcessId> {
+        match command {
+            Command::CompactLocals { process_id, .. } => Some(*process_id),
+            Command::ResumeProcess { id, .. } => Some(*id),
+            Command::GetResult { process_id, .. } => Some(*process_id),
+            _ => None,
+        }
+    }
+
     fn handle_command(&mut self, command: Command<E>) -> Result<(), EnvironmentError> {
+        // A client may enter a line while the previous one is still running. Its compaction and
+        // resumption cannot be applied to the running line (they would re-index live locals and
+        // restart a busy process), and dropping them leaves the host's view of the session out
+        // of step with the process. So they wait, in order, until the process sleeps - together
+        // with any result request that arrives behind them, which belongs to the waiting line.
+        if let Some(pid) = Self::session_command_target(&command)
+            && let Some(process) = self.executor.get_process(pid)
+            && process.persistent
+        {
+            let queued = self
+                .deferred_session_commands
+                .get(&pid)
+                .is_some_and(|q| !q.is_empty());
+            let running = process.result.is_none();
+            let starts_a_line = !matches!(command, Command::GetResult { .. });
+            if queued || (running && starts_a_line) {
+                self.deferred_session_commands
+                    .entry(pid)
+                    .or_default()
+                    .push_back(command);
+                return Ok(());
+            }
+        }
+        self.handle_command_now(command)
+    }
+
+    /// Apply the deferred commands of every persistent process that has gone to sleep (or failed):
+    /// compaction and resumption of the waiting line, then the result requests that belong to it.
+    fn run_deferred_session_commands(&mut self) -> Result<(), EnvironmentError> {
+        if self.deferred_session_commands.is_empty() {
+            return Ok(());
+        }
+        let pids: Vec<ProcessId> = self.deferred_session_commands.keys().copied().collect();
+        for pid in pids {
+            loop {
+                let running = match self.executor.get_process(pid) {
+                    Some(process) => process.result.is_none(),
+                    None => false,
+                };
+                let Some(queue) = self.deferred_session_commands.get_mut(&pid) else {
+                    break;
+                };
+                // A running process takes only the result requests of the line it is running.
+                match queue.front() {
+                    None => {
+                        self.deferred_session_commands.remove(&pid);
+                        break;
+                    }
+                    Some(Command::GetResult { .. }) => {}
+                    Some(_) if running => break,
+                    Some(_) => {}
+                }
+                let command = queue.pop_front().unwrap();
+                self.handle_command_now(command)?;
+            }
+        }
+        Ok(())
+    }
+
+    fn handle_command_now(&mut self, command: Command<E>) -> Result<(), EnvironmentError> {
         match command {
             Command::UpdateProgram(update) => {
                 self.update_program(update)?;
